@@ -42,18 +42,17 @@ theorem persist_spec (s : MState) (k : Bytes) (m : Meta) :
     (persist s k m).2.1.state = m.state ∧ (persist s k m).2.1.value = m.value ∧
     (persist s k m).2.1.count = m.count := by
   unfold persist
-  cases hst : m.stored with
-  | none =>
-    simp only
-    refine ⟨diskSet_index s k m, ?_⟩
-    split <;> exact ⟨rfl, rfl, rfl, rfl, rfl, rfl, rfl⟩
-  | some e =>
-    simp only
-    split
-    · refine ⟨by rw [diskSet_index]; rfl, ?_⟩
-      split <;> exact ⟨rfl, rfl, rfl, rfl, rfl, rfl, rfl⟩
-    · refine ⟨diskSet_index s k m, ?_⟩
-      split <;> exact ⟨rfl, rfl, rfl, rfl, rfl, rfl, rfl⟩
+  simp only
+  split
+  · exact ⟨diskSet_index s k m, rfl, rfl, rfl, rfl, rfl, rfl, rfl⟩
+  · refine ⟨?_, rfl, rfl, rfl, rfl, rfl, rfl, rfl⟩
+    cases m.stored with
+    | none => exact diskSet_index s k m
+    | some e =>
+      simp only
+      split
+      · exact diskSet_index s k m
+      · exact diskSet_index s k m
 
 theorem gcStep_dead (now : Int) (s : MState) (key : Bytes) (m : Meta)
     (hd : (m.expired now || !m.isOk) = true) :
